@@ -40,15 +40,15 @@ def env_sched_c01():
 
 def env_sched_c07():
     s = []
-    for a in (1, 2, 1000):
+    for a in (1, 0, 1000):       # 0 is a legal asset id at this level (and falsy)
         for dt in (1, 2.5):
             s.append((dt, a, F, 'log', 0))
     s.append((0, 1, F, 'log', 0))
-    s.append((1, 2, PP, 'log', 0))
+    s.append((1, 0, PP, 'log', 0))
     for k in ('pause', 'unpause', 'cancel'):
         s.append((1, 1000, PP, k, 1))       # asset 1000's action pauses/resumes/cancels asset 1 from inside
     s.append((0.5, 1, F, 'pause', 1))       # an action that pauses its own asset
-    s.append((0.5, 2, F, 'follow', 1))
+    s.append((0.5, 0, F, 'follow', 1))
     # an event of asset 1 that carries the lowest priority there is (the one the run's own end marker uses)
     s.append((1, 1, 1, 'log', 0))
     return s
@@ -108,7 +108,7 @@ class C07(Check):
 
     def jobs(self, tier):
         D = 5 if tier == 'quick' else 6
-        params = {'depth': D, 'sched': env_sched_c07(), 'assets': [1, 2, 1000], 'runs': [1],
+        params = {'depth': D, 'sched': env_sched_c07(), 'assets': [1, 0, 1000], 'runs': [1],
                   'ext': ['pause', 'unpause', 'cancel', 'step', 'newenv']}
         jobs = split_first('env', f'ENV-C07[D{D}]', params, e2=200, max_states=3000000, max_seconds=3000)
         # longer sequences over a reduced alphabet (two assets, one priority, plain actions)
